@@ -117,7 +117,6 @@ TET_FUNCS = [
     ("cbary", "cell_barycenter", "cells", 3, {}, "barycenter", False),
 ]
 CONT_OF = {"vertices": "V", "edges": "E", "face_corners": "C", "faces": "F", "cells": "K"}
-DOCUMENTED_RAISE = ("angle_defects", "cotangent", "face_circumcenter")      # docstrings: "Raises: fails if ... not a triangle"
 
 
 # --------------------------------------------------------------------------------------------- small helpers
@@ -541,18 +540,60 @@ def evaluate_surface(ctx, V, F, rnd, where, full, int_form=None, idx_form="list"
     if full or rnd.randrange(3) == 0:
         extra.append(("glob", custom))
 
-    # documented failures on non-triangulated meshes / unknown weighting
+    # triangle-only functions on a mesh with a non-triangular face: the docstrings announce an exception, the listed property only
+    # says that whatever is returned equals the definition. So: either the call raises (any exception type), or it returns values that
+    # equal the definition extended to polygons - anything else (returning wrong numbers) is a violation.
     if not tri:
-        for fname in DOCUMENTED_RAISE:
-            def run(call, out, hist, fname=fname):
-                hist.append(fname + "[non-tri]")
+        def nontri_defects(call, out, hist):
+            for zb in (False, True):
+                hist.append(f"angle_defects[non-tri,zero_border={zb}]")
                 try:
-                    getattr(A, fname)(mesh, persistent=False)
+                    attr = A.angle_defects(mesh, zero_border=zb, persistent=False, dense=rnd.randrange(2) == 0)
                 except Exception:
                     ctx.n_assert += 1
-                    return
-                ctx.fail("nontri:" + fname, f"{where}: {fname} returned on a mesh with a non-triangular face (documented to raise)")
-            extra.append(("glob", run))
+                    continue
+                w = f"{where}: angle_defects(mesh, zero_border={zb}, persistent=False) returned on a mesh with a non-triangular face"
+                vals = read_attr(ctx, "nontri:angle_defects", attr, nV, 1, w)
+                if vals is not None:
+                    compare(ctx, "nontri:angle_defects", vals, R.angle_defects(V, F, zb), "inv", L,
+                            w + " [then it must be 2 pi (pi on the border, 0 with zero_border) minus the sum of the corner angles]")
+
+        def nontri_cotangent(call, out, hist):
+            hist.append("cotangent[non-tri]")
+            try:
+                attr = A.cotangent(mesh, persistent=False, dense=rnd.randrange(2) == 0)
+            except Exception:
+                ctx.n_assert += 1
+                return
+            w = f"{where}: cotangent(mesh, persistent=False) returned on a mesh with a non-triangular face"
+            vals = read_attr(ctx, "nontri:cotangent", attr, nC, 1, w)
+            if vals is not None:
+                compare(ctx, "nontri:cotangent", vals, R.corner_cotangents(V, F), "inv", L, w + " [then it must be the cotangent of every corner angle]")
+
+        def nontri_circumcenter(call, out, hist):
+            hist.append("face_circumcenter[non-tri]")
+            try:
+                attr = A.face_circumcenter(mesh, persistent=False, dense=rnd.randrange(2) == 0)
+            except Exception:
+                ctx.n_assert += 1
+                return
+            w = f"{where}: face_circumcenter(mesh, persistent=False) returned on a mesh with a non-triangular face"
+            vals = read_attr(ctx, "nontri:face_circumcenter", attr, nF, 3, w)
+            if vals is None:
+                return
+            nrm = ref["fnormal"]
+            for k, f in enumerate(F):
+                P = V[list(f)]
+                d = np.linalg.norm(P - vals[k], axis=1)
+                diam = float(np.max(np.linalg.norm(P - P.mean(axis=0), axis=1)))
+                off = abs(float(np.dot(vals[k] - P[0], nrm[k])))
+                good = bool(np.all(np.isfinite(vals[k]))) and float(np.max(d) - np.min(d)) <= 1e-9 * max(float(np.max(d)), diam) + 1e-12 * float(L) \
+                    and off <= 1e-9 * max(float(np.max(d)), diam) + 1e-12 * float(L)
+                if not ctx.check(good, "nontri:face_circumcenter",
+                                 f"{w}: the point {fmt(vals[k])} returned for the {len(f)}-gon {k} is not equidistant from its vertices in its plane "
+                                 f"(distances {fmt(d)}, offset from the plane {off:.3e})"):
+                    break
+        extra += [("glob", nontri_defects), ("glob", nontri_cotangent), ("glob", nontri_circumcenter)]
 
     def bad_mode(call, out, hist):
         try:
